@@ -32,9 +32,9 @@ AXIOM_ALLOW = {
 # a proof containing the admit tactic cannot be closed by Qed anyway, so `Admitted` is the decisive pattern.
 FORBIDDEN = re.compile(
     r"\b(Admitted|Axiom|Axioms|Parameter|Parameters|Conjecture|Conjectures|Abort All|give_up)\b"
-    r"|(?:(?:^|[.;\[|(])\s*|\b(?:by|try|repeat|first|solve)\s+)admit\s*(?=[.;|\])])"
+    r"|(?:(?:^|[.;\[|({}]|^\s*[-+*]+)\s*|\b(?:by|try|repeat|first|solve)\s+)admit\s*(?=[.;|\])}])"
     r"|Admit Obligations|Unset Guard Checking|Unset Positivity Checking|Unset Universe Checking"
-    r"|bypass_check|type-in-type|impredicative-set|native_compute")
+    r"|bypass_check|type-in-type|impredicative-set|native_compute", re.M)
 
 
 class Broken(Exception):
